@@ -74,3 +74,26 @@ Fixpoint run_hist (U : univ) (h : history) (s : lstate) : lstate :=
   | [] => s
   | tx :: t => run_hist U t (snd (run_tx U tx s))
   end.
+
+(* ---- guards of the theorems (statements about histories) ------------------------------------- *)
+
+(* entities are created with ids of the universe the cursors enumerate *)
+Definition op_in (U : univ) (o : op) : Prop :=
+  match o with OCreate sd x => In x (uni U sd) | _ => True end.
+Definition hist_in (U : univ) (h : history) : Prop := Forall (Forall (op_in U)) h.
+
+(* SetLinkCount with a negative count is documented API misuse *)
+Definition op_count_ok (o : op) : Prop :=
+  match o with OSetCount _ _ _ n => (0 <= n)%Z | _ => True end.
+Definition hist_counts_ok (h : history) : Prop := Forall (Forall op_count_ok) h.
+
+(* a bound on every count a history can produce: the largest SetLinkCount argument so far
+   plus the number of increments after it (the int32 payload is a machine bound) *)
+Definition op_bound (M : Z) (o : op) : Z :=
+  match o with
+  | OIncr _ _ _ => (M + 1)%Z
+  | OSetCount _ _ _ n => Z.max M n
+  | _ => M
+  end.
+Definition tx_bound (M : Z) (ops : list op) : Z := fold_left op_bound ops M.
+Definition hist_bound (M : Z) (h : history) : Z := fold_left tx_bound h M.
